@@ -1,6 +1,6 @@
 # C07 - the state cache never disagrees with the state trie (builder b07)
 _CCHK = "verifharness/checks/cachechk"
-WIP["C07"] = dict(
+CHECKS["C07"] = dict(
     level="exploration", engine="E1-lite + E1",
     technique="stateful (model-based) property-based testing with a differential oracle: rapid state machine over the real StateContext / MPT / state cache stack on a tree of blocks, every cached read compared with an uncached trie read at the same root; generated transaction histories through Chain.UpdateState with a cache audit after every transaction; deep in-place mutation of every returned object",
     level_text="Part 1: generated histories of block opens on any committed block (siblings, forks, late block hash of a generator), transaction begin / commit / discard, get / insert / delete of all seven cacheable entity types (reflectively generated values incl. versioned wrappers and magic blocks) and two non-cacheable controls, deep scrambling of every object a read returned or an insert was given, block commit / abandon and REST-style query reads run on the real cstate.StateContext over the real MPT and the real StateCache -> BlockCache -> TransactionCache stack wired as chain.updateState, block.ComputeState, the generator and the REST handlers wire them; every read through the stack must have the outcome, the canonical encoding and the object structure of a read from a trie opened with an empty cache on the same root. Part 2: generated transaction histories (settings updates, add_validator calls that write partitions and then fail, node registration, fee payments, garbage, nonce games) run through Chain.UpdateState on the booted chain; after every applied, failed or rejected transaction every key held anywhere in the cache stack is read as the next transaction would read it, compared with the uncached block state, scrambled and read again.",
